@@ -20,16 +20,6 @@ pub open spec fn need<A, L>(local: Map<A, BTreeMap<L, SeqNum>>, remote: Map<A, B
 pub open spec fn expected<A, L>(local: Map<A, BTreeMap<L, SeqNum>>, remote: Map<A, BTreeMap<L, SeqNum>>, a: A, l: L) -> Option<Rng> {
     if need(local, remote, a, l) { Some((hget(remote, a, l), hget(local, a, l))) } else { None }
 }
-// keys visited so far by an iteration over a map
-pub open spec fn visited<K, V>(h: Seq<(&K, &V)>, k: K) -> bool {
-    exists|i: int| 0 <= i < h.len() && *(#[trigger] h[i]).0 == k
-}
-// h2 is h extended by the (new) key
-pub open spec fn next_key<K, V>(h: Seq<(&K, &V)>, h2: Seq<(&K, &V)>, key: K) -> bool {
-    &&& !visited(h, key)
-    &&& forall|k: K| #[trigger] visited(h2, k) <==> (visited(h, k) || k == key)
-}
-
 // ---- loop invariants (opaque in the function body; unfolded only inside the step lemmas) ----------
 #[verifier::opaque]
 pub open spec fn outer_inv<A, L>(local: Map<A, BTreeMap<L, SeqNum>>, remote: Map<A, BTreeMap<L, SeqNum>>, needs: Map<A, BTreeMap<L, Rng>>, h: Seq<(&A, &BTreeMap<L, SeqNum>)>) -> bool {
@@ -47,9 +37,4 @@ pub open spec fn upd<A, L>(old: Map<A, BTreeMap<L, Rng>>, new: Map<A, BTreeMap<L
     &&& new[key]@ == (if old.contains_key(key) { old[key]@ } else { Map::<L, Rng>::empty() }).insert(l, v)
     &&& forall|a: A| a != key ==> (#[trigger] new.contains_key(a) == old.contains_key(a))
     &&& forall|a: A| a != key && #[trigger] old.contains_key(a) ==> new[a] == old[a]
-}
-
-// every key of m has been visited, and only keys of m
-pub open spec fn covers<K, V>(h: Seq<(&K, &V)>, m: Map<K, V>) -> bool {
-    forall|k: K| visited(h, k) <==> #[trigger] m.contains_key(k)
 }
